@@ -344,6 +344,24 @@ def classify_write(an, stmt):
         a, b = rv.ops
         if a.kind != 'const' and a.place.key() == stmt.place.key():
             return ('+=' if rv.binop.startswith('Add') else '-=', an.resolve_operand(b))
+    # `x.f = x.f.saturating_sub(n)` / saturating_add / wrapping_*: the same update written with a std method (it differs from
+    # the plain operator only where that would overflow, i.e. panic in a debug build)
+    if rv.kind == 'use' and rv.ops[0].kind in ('move', 'copy') and not rv.ops[0].place.proj:
+        d = an.single_def(rv.ops[0].place.local)
+        if d and d[0] != 'stmt':
+            t = d[3]
+            meth = [n.split('::')[-1] for n in t.callee_names() if n.startswith('core::num::') or n.startswith('std::num::') or '::num::' in n]
+            if meth and meth[0] in ('saturating_sub', 'saturating_add', 'wrapping_sub', 'wrapping_add') and len(t.args) == 2:
+                a = t.args[0]
+                src = a
+                for _ in range(3):
+                    if src.kind != 'const' and not src.place.proj:
+                        d2 = an.single_def(src.place.local)
+                        if d2 and d2[0] == 'stmt' and d2[3].rv.kind == 'use':
+                            src = d2[3].rv.ops[0]; continue
+                    break
+                if src.kind != 'const' and src.place.proj and stmt.place.proj and src.place.last_field() == stmt.place.last_field() and src.place.last_field() is not None:
+                    return ('+=' if meth[0].endswith('add') else '-=', an.resolve_operand(t.args[1]))
     if rv.ops:
         return ('=', an.resolve_operand(rv.ops[0]))
     return ('=', repr(rv))
